@@ -10,22 +10,6 @@ open Galaxy
 
 /-! ## list facts about the KUBE-HOSTPORTS loops -/
 
-theorem eraseAll_sub : ∀ (js rs l : List Rule), (∀ j ∈ js, j ∉ rs) → l.Nodup → (∀ x ∈ l, x ∈ js) →
-    eraseAll (rs ++ l) js = rs
-  | [], rs, l, _, _, hsub => by
-    have : l = [] := List.eq_nil_iff_forall_not_mem.mpr (fun x hx => by simpa using hsub x hx)
-    subst this; simp [eraseAll]
-  | j :: js, rs, l, h, hl, hsub => by
-    have hj : j ∉ rs := h j (List.mem_cons_self ..)
-    simp only [eraseAll]
-    rw [List.erase_append_right _ hj]
-    apply eraseAll_sub js rs (l.erase j) (fun j' hj' => h j' (List.mem_cons_of_mem _ hj')) (hl.erase _)
-    intro x hx
-    have hx' := (List.Nodup.mem_erase_iff hl).mp hx
-    rcases List.mem_cons.mp (hsub x hx'.2) with e | e
-    · exact absurd e hx'.1
-    · exact e
-
 theorem eraseAll_partial : ∀ (ds rs l0 : List Rule), (∀ d ∈ ds, d ∉ rs) → l0.Nodup →
     ∃ l, eraseAll (rs ++ l0) ds = rs ++ l ∧ l.Nodup ∧ ∀ x ∈ l, x ∈ l0
   | [], rs, l0, _, hl => ⟨l0, by simp [eraseAll], hl, fun _ h => h⟩
@@ -42,65 +26,49 @@ theorem checkRefs_noTarget {setOk : String → Bool} {T : Table} {r : Rule} {t :
   unfold checkRefs
   rw [h1]; simp [h2]
 
-/-! ## cleaning a table in which the pod is (partly) set up -/
+/-! ## cleaning when the pod is not (or no longer) set up -/
 
-/-- `T2` = the prior table `T` plus the pod's chains and some of its KUBE-HOSTPORTS rules (`l`): CleanPortMapping
-    succeeds and leaves `T` (with galaxy's KUBE-MARK-MASQ) -/
-theorem clean_spec_partial (hash : String → String) (T T2 : Table) (ps : List Port) (rs l : List Rule)
+theorem ensureChains_noop (hash : String → String) (T : Table) (qs : List Port)
+    (h : ∀ p ∈ qs, Tbl.has T (chainName hash p) = true) (c : String) :
+    Tbl.get (ensureChains hash T qs) c = Tbl.get T c := by
+  rw [ensureChains_get]
+  by_cases hc : c ∈ qs.map (chainName hash)
+  · obtain ⟨p, hp, rfl⟩ := List.mem_map.mp hc
+    obtain ⟨rs, hrs⟩ := has_iff.mp (h p hp)
+    simp [hc, hrs]
+  · simp [hc]
+
+/-- CleanPortMapping from any table with KUBE-HOSTPORTS in which no rule refers to the pod's chains — whether the
+    chains exist (left by a half-done setup) or not (restore failed, or an earlier cleanup removed them): it
+    succeeds and the result is the table without those chains. -/
+theorem clean_unreferenced (hash : String → String) (T : Table) (ps : List Port) (rs : List Rule)
     (hk : Tbl.get T hostportsChain = some rs)
     (hnd : (ps.map (chainName hash)).Nodup)
-    (hunref : ∀ p ∈ ps, referenced T (chainName hash p) = false)
-    (hl : l.Nodup) (hlsub : ∀ x ∈ l, x ∈ ps.map (jumpRule hash))
-    (g2 : ∀ c, Tbl.get T2 c =
-      if c = markMasqChain then some [markRule]
-      else if c ∈ ps.map (chainName hash) then some (hpRules hash ps c)
-      else if c = hostportsChain then some (rs ++ l) else Tbl.get T c) :
-    ∃ T4, clean hash T2 ps = (T4, none) ∧
-      ∀ c, Tbl.get T4 c =
-        if c ∈ ps.map (chainName hash) then none
-        else if c = markMasqChain then some [markRule] else Tbl.get T c := by
+    (hunref : ∀ p ∈ ps, referenced T (chainName hash p) = false) :
+    ∃ T4, clean hash T ps = (T4, none) ∧
+      ∀ c, Tbl.get T4 c = if c ∈ ps.map (chainName hash) then none else Tbl.get T c := by
   have hkn : hostportsChain ∉ ps.map (chainName hash) := by
     intro h
     have := names_prefix h
     rw [hostports_no_prefix] at this; cases this
-  have hfresh := jump_not_in_prior hk hunref
-  have hk2 : Tbl.get T2 hostportsChain = some (rs ++ l) := by
-    rw [g2]; simp [hkn, markMasq_ne_hostports.symm]
-  have hn2 : ∀ p ∈ ps, Tbl.has T2 (chainName hash p) = true := by
-    intro p hp
-    simp [Tbl.has, g2, chainName_ne_markMasq, List.mem_map_of_mem hp]
-  obtain ⟨T3, h3, g3k, g3⟩ := deleteJumps_spec hash ps T2 _ hk2 hn2
-  rw [eraseAll_sub _ _ _ hfresh hl hlsub] at g3k
-  obtain ⟨T4, h4, g4⟩ := cleanBatch_spec (fun _ => true) hash T3 ps hnd (by
-    intro k rs' r c hkr hr hc hcn
-    by_cases hkn' : k ∈ ps.map (chainName hash)
-    · exact hkn'
-    · exfalso
-      obtain ⟨p, hp, rfl⟩ := List.mem_map.mp hcn
-      by_cases hkh : k = hostportsChain
-      · subst hkh
-        rw [g3k] at hkr; cases hkr
-        exact referenced_false_iff.mp (hunref p hp) _ _ _ hk hr hc
-      · rw [g3 k hkh, g2 k] at hkr
-        by_cases hkm : k = markMasqChain
-        · subst hkm
-          simp at hkr; subst hkr
-          simp only [List.mem_cons, List.mem_nil_iff, or_false] at hr
-          subst hr; rw [chainRef_mark] at hc; cases hc
-        · simp only [hkm, hkn', hkh, if_false] at hkr
-          exact referenced_false_iff.mp (hunref p hp) _ _ _ hkr hr hc)
-  refine ⟨T4, ?_, ?_⟩
-  · simp [clean, Generated.Netfilter.cleanDeletesJumpRulesBeforeRestore, h3, Generated.Netfilter.cleanRestores,
-      commit, h4]
-  · intro c
-    rw [g4 c]
-    by_cases hcn : c ∈ ps.map (chainName hash)
-    · simp [hcn]
-    · simp only [hcn, if_false]
-      by_cases hch : c = hostportsChain
-      · subst hch
-        rw [g3k]; simp [markMasq_ne_hostports.symm, hk]
-      · rw [g3 c hch, g2 c]; simp [hcn, hch]
+  obtain ⟨T4, h4, g4⟩ := clean_spec_partial hash T T ps rs [] (Tbl.get T markMasqChain) (fun c => Tbl.get T c)
+    hk hnd hunref List.nodup_nil (by simp) (Or.inr rfl) (by
+      intro c
+      by_cases h1 : c = markMasqChain
+      · subst h1; simp
+      · by_cases h2 : c ∈ ps.map (chainName hash)
+        · simp [h1, h2]
+        · by_cases h3 : c = hostportsChain
+          · subst h3; simp [h1, h2, hk]
+          · simp [h1, h2, h3])
+  refine ⟨T4, h4, ?_⟩
+  intro c
+  rw [g4 c]
+  by_cases h2 : c ∈ ps.map (chainName hash)
+  · simp [h2]
+  · by_cases h1 : c = markMasqChain
+    · subst h1; simp [h2]
+    · simp [h1, h2]
 
 /-- the table after the restore of SetupPortMapping and the EnsureRule calls of the first `i` ports -/
 theorem setup_prefix_spec (hash : String → String) (T : Table) (ps : List Port) (rs : List Rule) (i : Nat)
@@ -144,52 +112,67 @@ theorem failedAdd_spec (hash : String → String) (T : Table) (ps : List Port) (
     (hne : ps ≠ []) (hkl : k ≤ ps.length)
     (hk : Tbl.get T hostportsChain = some rs)
     (hnd : (ps.map (chainName hash)).Nodup)
-    (habs : ∀ p ∈ ps, Tbl.get T (chainName hash p) = none)
     (hunref : ∀ p ∈ ps, referenced T (chainName hash p) = false) :
     (addPod hash (some k) ⟨T, none⟩ ps).2 = false ∧
-    (addPod hash (some k) ⟨T, none⟩ ps).1.file = (if k = 0 then some ps else none) ∧
+    (addPod hash (some k) ⟨T, none⟩ ps).1.file = none ∧
     ∀ c, Tbl.get (addPod hash (some k) ⟨T, none⟩ ps).1.T c =
       if c ∈ ps.map (chainName hash) then none
       else if c = markMasqChain then (if k = 0 then Tbl.get T c else some [markRule]) else Tbl.get T c := by
   cases k with
   | zero =>
-    -- the restore failed: nothing was created; the cleanup fails at its first `iptables -C`
-    obtain ⟨p, rest, rfl⟩ := List.exists_cons_of_ne_nil hne
-    have hrefs : checkRefs (fun _ => true) T (jumpRule hash p) = some .noTarget :=
-      checkRefs_noTarget (chainRef_jump hash p) (has_false_iff.mpr (habs p (List.mem_cons_self ..)))
-    have hdj : deleteJumps hash T (p :: rest) = (T, some .noTarget) := by
-      show (match deleteRule (fun _ => true) T hostportsChain (jumpRule hash p) with
-        | .error e => (T, some e)
-        | .ok T' => deleteJumps hash T' rest) = _
-      unfold deleteRule; rw [hrefs]
-    have hcl : clean hash T (p :: rest) = (T, some .noTarget) := by
-      simp [clean, Generated.Netfilter.cleanDeletesJumpRulesBeforeRestore, hdj]
-    have : addPod hash (some 0) ⟨T, none⟩ (p :: rest) = (⟨T, some (p :: rest)⟩, false) := by
-      simp [addPod, setupFault, Generated.Netfilter.portFileSavedBeforeSetup,
-        Generated.Netfilter.addFailureRunsCleanup, cleanupPort, hcl]
+    -- the restore failed: nothing was created; the cleanup re-creates the chains, finds no rule and deletes them
+    obtain ⟨T4, h4, g4⟩ := clean_unreferenced hash T ps rs hk hnd hunref
+    rw [clean_eq_cleanWith] at h4
+    have : addPod hash (some 0) ⟨T, none⟩ ps = (⟨T4, none⟩, false) := by
+      simp [addPod, addPodWith, hne, setupFault, Generated.Netfilter.portFileSavedBeforeSetup,
+        Generated.Netfilter.addFailureRunsCleanup, cleanupPortWith, Generated.Netfilter.cleanEnsuresChainsFirst, h4,
+        Generated.Netfilter.cleanupRemovesFileAfterClean]
     rw [this]
-    refine ⟨rfl, by simp, ?_⟩
+    refine ⟨rfl, rfl, ?_⟩
     intro c
-    by_cases hcn : c ∈ (p :: rest).map (chainName hash)
-    · obtain ⟨q, hq, rfl⟩ := List.mem_map.mp hcn
-      simp [hcn, habs q hq]
-    · rw [if_neg hcn]
-      by_cases hcm : c = markMasqChain <;> simp [hcm]
+    rw [g4 c]
+    by_cases hcn : c ∈ ps.map (chainName hash)
+    · simp [hcn]
+    · by_cases hcm : c = markMasqChain <;> simp [hcn, hcm]
   | succ i =>
     have hi : i < ps.length := hkl
     obtain ⟨T1, T2, h1, h2, g2⟩ := setup_prefix_spec hash T ps rs i hk hnd hunref
     have hjnd := jumpRules_nodup hnd
-    obtain ⟨T4, h4, g4⟩ := clean_spec_partial hash T T2 ps rs ((ps.map (jumpRule hash)).take i) hk hnd hunref
-      (hjnd.sublist (List.take_sublist _ _)) (fun x hx => List.mem_of_mem_take hx) g2
+    obtain ⟨T4, h4, g4⟩ := clean_spec_partial hash T T2 ps rs ((ps.map (jumpRule hash)).take i) (some [markRule])
+      (fun c => some (hpRules hash ps c)) hk hnd hunref
+      (hjnd.sublist (List.take_sublist _ _)) (fun x hx => List.mem_of_mem_take hx) (Or.inl rfl) g2
+    rw [clean_eq_cleanWith] at h4
     have hsf : setupFault hash (i + 1) T ps = (T2, some .fault) := by
       simp [setupFault, h1, Generated.Netfilter.setupEnsuresJumpRulesAfterRestore, hi, h2]
     have : addPod hash (some (i + 1)) ⟨T, none⟩ ps = (⟨T4, none⟩, false) := by
-      simp [addPod, hne, hsf, Generated.Netfilter.portFileSavedBeforeSetup,
-        Generated.Netfilter.addFailureRunsCleanup, cleanupPort, h4, Generated.Netfilter.cleanupRemovesFileAfterClean]
+      simp [addPod, addPodWith, hne, hsf, Generated.Netfilter.portFileSavedBeforeSetup,
+        Generated.Netfilter.addFailureRunsCleanup, cleanupPortWith, Generated.Netfilter.cleanEnsuresChainsFirst, h4,
+        Generated.Netfilter.cleanupRemovesFileAfterClean]
     rw [this]
-    refine ⟨rfl, by simp, ?_⟩
+    refine ⟨rfl, rfl, ?_⟩
     intro c
     rw [g4 c]; simp
+
+/-- the code BEFORE the fix (no EnsureChain loop in CleanPortMapping): when the restore itself fails, the cleanup
+    fails at its first `iptables -C` (jump target chain missing) and the port file stays -/
+theorem failedRestore_prefix_spec (hash : String → String) (T : Table) (ps : List Port)
+    (hne : ps ≠ []) (habs : ∀ p ∈ ps, Tbl.get T (chainName hash p) = none) :
+    addPodWith false hash (some 0) ⟨T, none⟩ ps = (⟨T, some ps⟩, false) ∧
+    delPodWith false hash none ⟨T, some ps⟩ = (⟨T, some ps⟩, false) := by
+  obtain ⟨p, rest, rfl⟩ := List.exists_cons_of_ne_nil hne
+  have hrefs : checkRefs (fun _ => true) T (jumpRule hash p) = some .noTarget :=
+    checkRefs_noTarget (chainRef_jump hash p) (has_false_iff.mpr (habs p (List.mem_cons_self ..)))
+  have hdj : deleteJumps hash T (p :: rest) = (T, some .noTarget) := by
+    show (match deleteRule (fun _ => true) T hostportsChain (jumpRule hash p) with
+      | .error e => (T, some e)
+      | .ok T' => deleteJumps hash T' rest) = _
+    unfold deleteRule; rw [hrefs]
+  have hcl : cleanWith false hash T (p :: rest) = (T, some .noTarget) := by
+    simp [cleanWith, Generated.Netfilter.cleanDeletesJumpRulesBeforeRestore, hdj]
+  constructor
+  · simp [addPodWith, setupFault, Generated.Netfilter.portFileSavedBeforeSetup,
+      Generated.Netfilter.addFailureRunsCleanup, cleanupPortWith, hcl]
+  · simp [delPodWith, Generated.Netfilter.delRunsCleanup, cleanupPortWith, hcl]
 
 /-! ## ADD, then DEL (possibly failing once at call `j`, then retried) -/
 
@@ -205,7 +188,7 @@ theorem add_spec (hash : String → String) (T : Table) (ps : List Port) (rs : L
   obtain ⟨T2, h2, g2⟩ := setup_spec hash T ps rs hk
   have hfresh := jump_not_in_prior hk hunref
   have hjnd := jumpRules_nodup hnd
-  refine ⟨T2, by simp [addPod, hne, h2], ?_⟩
+  refine ⟨T2, by simp [addPod, addPodWith, hne, h2], ?_⟩
   intro c
   rw [g2 c, ensureAll_fresh _ _ hfresh hjnd]
 
@@ -222,13 +205,16 @@ theorem del_spec (hash : String → String) (T T2 : Table) (ps : List Port) (rs 
       ∀ c, Tbl.get T4 c =
         if c ∈ ps.map (chainName hash) then none
         else if c = markMasqChain then some [markRule] else Tbl.get T c := by
-  obtain ⟨T4, h4, g4⟩ := clean_spec_partial hash T T2 ps rs l hk hnd hunref hl hlsub g2
-  exact ⟨T4, by simp [delPod, Generated.Netfilter.delRunsCleanup, cleanupPort, hne, h4,
-    Generated.Netfilter.cleanupRemovesFileAfterClean], g4⟩
+  obtain ⟨T4, h4, g4⟩ := clean_spec_partial hash T T2 ps rs l (some [markRule]) (fun c => some (hpRules hash ps c))
+    hk hnd hunref hl hlsub (Or.inl rfl) g2
+  rw [clean_eq_cleanWith] at h4
+  exact ⟨T4, by simp [delPod, delPodWith, Generated.Netfilter.delRunsCleanup, cleanupPortWith, hne,
+    Generated.Netfilter.cleanEnsuresChainsFirst, h4, Generated.Netfilter.cleanupRemovesFileAfterClean], g4⟩
 
-/-- a DEL whose iptables call `j` fails keeps the port file and leaves a table of the shape `del_spec` accepts -/
+/-- a DEL whose iptables call `j` fails (j < n an EnsureChain, n ≤ j < 2n a DeleteRule, j = 2n the restore) keeps
+    the port file and leaves a table of the shape `del_spec` accepts -/
 theorem faultyDel_spec (hash : String → String) (T T2 : Table) (ps : List Port) (rs : List Rule) (j : Nat)
-    (hne : ps ≠ []) (hjl : j ≤ ps.length)
+    (hne : ps ≠ []) (hjl : j ≤ 2 * ps.length)
     (hk : Tbl.get T hostportsChain = some rs)
     (hnd : (ps.map (chainName hash)).Nodup)
     (hunref : ∀ p ∈ ps, referenced T (chainName hash p) = false)
@@ -248,23 +234,38 @@ theorem faultyDel_spec (hash : String → String) (T T2 : Table) (ps : List Port
     rw [hostports_no_prefix] at this; cases this
   have hfresh := jump_not_in_prior hk hunref
   have hjnd := jumpRules_nodup hnd
-  have hk2 : Tbl.get T2 hostportsChain = some (rs ++ ps.map (jumpRule hash)) := by
-    rw [g2]; simp [hkn, markMasq_ne_hostports.symm]
-  have hn2 : ∀ p ∈ ps.take j, Tbl.has T2 (chainName hash p) = true := by
+  have hn2 : ∀ p ∈ ps, Tbl.has T2 (chainName hash p) = true := by
     intro p hp
-    simp [Tbl.has, g2, chainName_ne_markMasq, List.mem_map_of_mem (List.mem_of_mem_take hp)]
-  obtain ⟨T3, h3, g3k, g3⟩ := deleteJumps_spec hash (ps.take j) T2 _ hk2 hn2
-  obtain ⟨l, hl1, hl2, hl3⟩ := eraseAll_partial ((ps.take j).map (jumpRule hash)) rs (ps.map (jumpRule hash))
-    (fun d hd => by
-      rw [List.map_take] at hd
-      exact hfresh d (List.mem_of_mem_take hd)) hjnd
-  rw [hl1] at g3k
-  refine ⟨T3, l, ?_, hl2, hl3, ?_⟩
-  · simp [delPod, Generated.Netfilter.delRunsCleanup, cleanupPort, hne, cleanFault, hjl, h3]
-  · intro c
-    by_cases hc : c = hostportsChain
-    · subst hc
-      simp [g3k, markMasq_ne_hostports.symm, hkn]
-    · rw [g3 c hc, g2 c]; simp [hc]
+    simp [Tbl.has, g2, chainName_ne_markMasq, List.mem_map_of_mem hp]
+  by_cases hjn : j < ps.length
+  · -- an EnsureChain fails: the chains exist already, nothing changed
+    refine ⟨ensureChains hash T2 (ps.take j), ps.map (jumpRule hash), ?_, hjnd, fun _ h => h, ?_⟩
+    · simp [delPod, delPodWith, Generated.Netfilter.delRunsCleanup, cleanupPortWith, hne,
+        Generated.Netfilter.cleanEnsuresChainsFirst, cleanFaultWith, hjn]
+    · intro c
+      rw [ensureChains_noop hash T2 _ (fun p hp => hn2 p (List.mem_of_mem_take hp)) c, g2 c]
+  · have hjn' : ps.length ≤ j := Nat.le_of_not_lt hjn
+    have g0 : ∀ c, Tbl.get (ensureChains hash T2 ps) c = Tbl.get T2 c := ensureChains_noop hash T2 ps hn2
+    have hk2 : Tbl.get (ensureChains hash T2 ps) hostportsChain = some (rs ++ ps.map (jumpRule hash)) := by
+      rw [g0, g2]; simp [hkn, markMasq_ne_hostports.symm]
+    have hn0 : ∀ p ∈ ps.take (j - ps.length), Tbl.has (ensureChains hash T2 ps) (chainName hash p) = true := by
+      intro p hp
+      have := hn2 p (List.mem_of_mem_take hp)
+      simpa [Tbl.has, g0] using this
+    obtain ⟨T3, h3, g3k, g3⟩ := deleteJumps_spec hash (ps.take (j - ps.length)) _ _ hk2 hn0
+    obtain ⟨l, hl1, hl2, hl3⟩ := eraseAll_partial ((ps.take (j - ps.length)).map (jumpRule hash)) rs
+      (ps.map (jumpRule hash))
+      (fun d hd => by
+        rw [List.map_take] at hd
+        exact hfresh d (List.mem_of_mem_take hd)) hjnd
+    rw [hl1] at g3k
+    refine ⟨T3, l, ?_, hl2, hl3, ?_⟩
+    · simp [delPod, delPodWith, Generated.Netfilter.delRunsCleanup, cleanupPortWith, hne,
+        Generated.Netfilter.cleanEnsuresChainsFirst, cleanFaultWith, hjn, hjl, h3]
+    · intro c
+      by_cases hc : c = hostportsChain
+      · subst hc
+        simp [g3k, markMasq_ne_hostports.symm, hkn]
+      · rw [g3 c hc, g0 c, g2 c]; simp [hc]
 
 end Galaxy.Netfilter
